@@ -51,7 +51,8 @@ MANIFEST = dict(
           'futures appended in order, one final complete task depending on the create task and on that list; window '
           'invariant of ReadFileChunk (reads never leave the window, seek(0) rewinds) for any number of rewinds; request '
           'tasks send exactly that body under that part number and return the response ETag (+ checksum).'
-          ' Single-request uploads: the body is the whole file / the seekable stream from its current position / an in-memory copy of the non-seekable stream from its position at call time to EOF (streams may return short reads); part metadata lists the part checksum exactly when an algorithm is in use and S3 returned it. Legacy S3Transfer upload path (upload_file, _put_object, _multipart_upload, _upload_parts, _upload_one_part): part windows, numbering 1..n in list order, ETags of the responses.'),
+          ' Single-request uploads: the body is the whole file / the seekable stream from its current position / an in-memory copy of the non-seekable stream from its position at call time to EOF (streams may return short reads); part metadata lists the part checksum exactly when an algorithm is in use and S3 returned it. Legacy S3Transfer upload path (upload_file, _put_object, _multipart_upload, _upload_parts, _upload_one_part): part windows, numbering 1..n in list order, ETags of the responses.'
+          " Also: compat.readable / seekable answer with the object's own verdict, else by capability probe; the legacy ReadFileChunk constructor establishes the window invariant its methods start from."),
     note=('A-FILE with full reads for user streams; the HTTP layer sends what read() returned between the last seek(0) and '
           'EOF (A-BOTO); S3 assembles parts by number; executor futures deliver results in submission order (A-EXECUTOR); '
           'no thread schedule is enumerated.'),
